@@ -1679,3 +1679,72 @@ func (c *Ctx) typeGuardedAt(in ssa.Instruction, want int64) bool {
 	}
 	return false
 }
+
+// ---------------------------------------------------------------------------
+// R-BUF-WRAPPED (C19; added after seed C19g): "end_of_stream is never at/past while input remains."  The
+// stream decides "at the end" from what its source last reported; it learns that through a wrapper that
+// records the error of every Read (and stands in for a source that is nil).  The buffered reader of a Stream
+// therefore never reads the source directly: every bufio.NewReader/NewReaderSize and every (*bufio.Reader).Reset
+// in the library is given the recording wrapper (a value of the library's own reader type), never a bare
+// io.Reader.  bufio.Reader.Reset(s.source) "to save an allocation" leaves the recorded end-of-file stale: after a
+// reset the stream says `at` whenever the buffer runs empty.
+func ruleBufWrapped(c *Ctx, r *Report) {
+	const rule = "R-BUF-WRAPPED"
+	desc := "the buffered reader of a stream reads its source only through the wrapper that records the source's errors"
+	n := 0
+	for _, fn := range c.LibFuncs() {
+		if funcPkg(fn) != c.Engine {
+			continue
+		}
+		k := 0
+		eachInstr(fn, func(in ssa.Instruction) {
+			call, ok := in.(*ssa.Call)
+			if !ok {
+				return
+			}
+			callee := call.Call.StaticCallee()
+			if callee == nil || callee.Pkg == nil || callee.Pkg.Pkg.Path() != "bufio" {
+				return
+			}
+			var src ssa.Value
+			switch {
+			case callee.Name() == "NewReader" || callee.Name() == "NewReaderSize":
+				src = call.Call.Args[0]
+			case callee.Name() == "Reset" && callee.Signature.Recv() != nil && isNamedIn(deref(callee.Signature.Recv().Type()), "bufio", "Reader"):
+				src = call.Call.Args[1]
+			default:
+				return
+			}
+			n++
+			k++
+			key := fmt.Sprintf("%s/bufio.%s#%d", fname(fn), callee.Name(), k)
+			if k0, isConst := src.(*ssa.Const); isConst && k0.IsNil() {
+				r.ok(rule, key, c.at(in), desc, "constructed over no source at all (a spare buffer): the Reset that points it at a source is what this rule decides", false)
+				return
+			}
+			wrapped := false
+			for _, l := range c.originSet(src) {
+				if mi, ok := l.(*ssa.MakeInterface); ok {
+					l = mi.X
+				}
+				if c.isLibNamedPtr(l.Type()) {
+					wrapped = true
+				}
+			}
+			if wrapped {
+				r.ok(rule, key, c.at(in), desc, "given a value of the library's own reader type", true)
+			} else {
+				r.bad(rule, key, c.at(in), desc, "the buffered reader is pointed at a bare io.Reader: the stream no longer sees what its source reports (a stale end-of-file makes it say `at` while input remains; a nil source is dereferenced)")
+			}
+		})
+	}
+	if n == 0 {
+		r.undecided(rule, "scan/bufio", "-", desc, "no construction or reset of a bufio.Reader found in the engine")
+	}
+}
+
+// isLibNamedPtr: a pointer to (or a value of) a named type declared in the library.
+func (c *Ctx) isLibNamedPtr(t types.Type) bool {
+	n, ok := deref(t).(*types.Named)
+	return ok && n.Obj().Pkg() != nil && (n.Obj().Pkg().Path() == enginePkgPath || n.Obj().Pkg().Path() == rootPkgPath)
+}
